@@ -338,7 +338,11 @@ def xor_table(prog, acc_idx, fn=None):
             return ("piece", role_of_colour(t[2][2]), piece_norm(prog, t[2][0], acc_idx), shift_norm(t[2][1]))
         if t[0] == "call" and t[1] == Z + "castle_hash":
             side = strip_cast(t[2][0])
-            return ("right", role_of_colour(t[2][1]), {consts["QUEEN"]: "queen_side_castle", consts["KING"]: "king_side_castle"}.get(side[1] if side[0] == "c" else None, "?"))
+            role_ = role_of_colour(t[2][1]) if len(t[2]) > 1 else "?"
+            flag_ = {consts["QUEEN"]: "queen_side_castle", consts["KING"]: "king_side_castle"}.get(side[1] if side[0] == "c" else None, "?")
+            if role_.startswith("?") or flag_ == "?":
+                return ("?", show(t)[:120])     # (arguments in another order / of another type: not read; kept distinct so that two of them do not cancel)
+            return ("right", role_, flag_)
         if t[0] == "call" and t[1] == Z + "en_passant_square_hash":
             a = strip_cast(t[2][0])
             return ("ep", a[1].rsplit("::", 1)[-1] if a[0] == "call" else show(a))
